@@ -59,6 +59,8 @@ def names(tier):
     if tier == 'thorough':
         for t in itertools.product(SPECIAL, repeat=3):
             out.append(''.join(t))
+    # names that are valid UTF-8 but change under Unicode normalisation (decomposed accent, Angstrom sign, Ohm sign, a compatibility ideograph)
+    out += ['e\u0301', 'dire\u0301x', '\u212b', '\u2126m', '\uf900']
     for n in [1] + list(range(243, 256)):
         out.append('L' * n)
         if n > 3:
